@@ -16,7 +16,10 @@ structure Animator (α : Type) where
   stateNs : Nat
 deriving Repr
 
-def Animator.timeline? (a : Animator α) (s : Nat) : Option (Merged α) := (a.timelines.getD s none)
+def Animator.timeline? (a : Animator α) (s : Nat) : Option (Merged α) :=
+  match a.timelines[s]? with
+  | some (some m) => some m
+  | _ => none
 
 /-- `blend_next_timeline` -/
 def Animator.blendNext (a : Animator α) (s : Nat) : Animator α :=
@@ -60,19 +63,48 @@ def Animator.isEnded (a : Animator α) : Bool :=
     | none => false                                  -- `x >= f32::INFINITY` is false for finite x
     | some d => d ≤ (Num.secsOfNanos a.stateNs : α)
 
+/-- the remembered position, if `s` is the paused state (`Some((paused_state, pos)) if state == paused_state`) -/
+def Animator.resumePos (a : Animator α) (s : Nat) : Option Nat :=
+  match a.paused with
+  | some (ps, pos) => if s == ps then some pos else none
+  | none => none
+
+/-- the pause bookkeeping of the non-resume arm (with the repair: entering an animated state forgets the pause) -/
+def Animator.notePause (a : Animator α) (s : Nat) : Animator α :=
+  let was := (a.timeline? a.state).isSome
+  let will := (a.timeline? s).isSome
+  if was && !will then { a with paused := some (a.state, a.stateNs) }
+  else if will then { a with paused := none } else a
+
+/-- the non-resume arm: bookkeeping, blend the next timeline from the current values, reset the clock -/
+def Animator.enter (a : Animator α) (s : Nat) : Animator α :=
+  { (a.notePause s).blendNext s with stateNs := 0 }
+
+/-- everything `set_state` does before the final `update_current_values` -/
+def Animator.switchTo (a : Animator α) (s : Nat) : Animator α :=
+  match a.resumePos s with
+  | some pos => { a with stateNs := pos, state := s }
+  | none => { a.enter s with state := s }
+
 /-- `StateAnimator::set_state` (with the repaired pause bookkeeping) -/
 def Animator.setState (a : Animator α) (s : Nat) : Except Panic (Animator α) :=
-  if s == a.state then .ok a else
-  let resumed : Option Nat := match a.paused with
-    | some (ps, pos) => if s == ps then some pos else none
-    | none => none
-  let a' : Animator α := match resumed with
-    | some pos => { a with stateNs := pos }
-    | none =>
-      let was := (a.timeline? a.state).isSome
-      let will := (a.timeline? s).isSome
-      let a1 : Animator α :=
-        if was && !will then { a with paused := some (a.state, a.stateNs) }
-        else if will then { a with paused := none } else a
-      { a1.blendNext s with stateNs := 0 }
-  Animator.updateValues { a' with state := s }
+  if s == a.state then .ok a else Animator.updateValues (a.switchTo s)
+
+/-- the operations of a history -/
+inductive AnimOp (α : Type) where
+  | advance (secs : α)
+  | advanceNs (ns : Nat)
+  | setState (s : Nat)
+
+def Animator.step (a : Animator α) : AnimOp α → Except Panic (Animator α)
+  | .advance secs => a.advance secs
+  | .advanceNs ns => a.advanceNs ns
+  | .setState s => a.setState s
+
+/-- run a history; stops at the first panic -/
+def Animator.run (a : Animator α) : List (AnimOp α) → Except Panic (Animator α)
+  | [] => .ok a
+  | op :: ops =>
+    match a.step op with
+    | .ok a' => a'.run ops
+    | .error p => .error p
